@@ -1293,7 +1293,7 @@ theorem step_finv (cfg : Cfg) (hl : cfg.lim.OK) (w : W) (hi : Inv cfg w) (op : O
   | setBatchTtl kvs ttl => exact FInv.setBatchTtl cfg hl _ hf him hi.cacheOff kvs ttl hc
   | get k => exact FInv.get cfg _ hf k
   | remove k => exact FInv.remove cfg _ hf k (by simp only [Op.adds] at hc; exact hc)
-  | removeWithPrefix p =>
+  | removeWithPrefix p ord =>
     exact removeFold_finv cfg _ _ hf (by simp only [Op.adds] at hc; exact hc)
   | clear => exact FInv.clear cfg _ hf
   | expireAt k t => exact FInv.expireAt cfg hl _ hf k t ht
